@@ -30,6 +30,11 @@ def raw_cost(spec, x):
         for t in ys[1:]:
             acc = acc if acc >= t else t
         return acc
+    if red == "sumsq":
+        acc = ys[0] * ys[0]
+        for t in ys[1:]:
+            acc = acc + t * t
+        return acc
     return ys
 
 
